@@ -29,12 +29,17 @@ def line_kinds(files):
 
 
 def classify(files, banned, what):
+    """which part of finding F18 explains that a banned kind went unnoticed: INCLUDE, MACRO and
+    PASTE are never seen by the ban check; of the other banned kinds, those written only inside
+    bodies of macros that are never pasted are never visited"""
     ks = set(k for _, _, k in line_kinds(files))
     hit = ks & set(banned)
-    if hit and hit <= {"INCLUDE", "MACRO", "PASTE"}:
+    rest = [k for k in banned if k not in ("INCLUDE", "MACRO", "PASTE")]
+    if hit and not (hit & set(rest)):
         return "ban-of-include-macro-paste-has-no-effect"
-    # banned kind only inside bodies of macros that are never pasted
-    return "banned-kind-only-in-unused-macro-body" if what == "unused" else "other"
+    if hit and banned_only_in_unused_macros(files, rest):
+        return "banned-kind-only-in-unused-macro-body"
+    return "other"
 
 
 def matches_finding(v, f):
